@@ -1,16 +1,5 @@
 // ---- model fragment: raw host values and `Env::invoke_contract` (M8, TRUSTED) ----
 // needs fragments core, bytes (Symbol), vec, xcall
-/// soroban_sdk::Val: an opaque host value
-pub struct Val { pub v: Ghost<SV> }
-impl ToSV for Val {
-    open spec fn sv(&self) -> SV { self.v@ }
-    open spec fn unsv(v: SV) -> Self { Val { v: Ghost(v) } }
-    proof fn lemma_rt(&self) {}
-}
-impl Clone for Val {
-    #[verifier::external_body]
-    fn clone(&self) -> (r: Self) ensures r == *self { unimplemented!() }
-}
 /// the argument vector of a call as the sequence of host values it carries
 pub open spec fn vals_sv(a: Seq<Val>) -> Seq<SV> { Seq::new(a.len(), |i: int| a[i].sv()) }
 
